@@ -1667,7 +1667,10 @@ def check_C01(run, replay=None):
         name = bytes.fromhex(f[2]).decode("utf8", "replace")
         detail = bytes.fromhex(kv.get("detail", "")).decode("utf8", "replace") if kv.get("detail", "-") != "-" else ""
         sig = None
-        if v == "typecheck" and re.match(r"name/component-header/(c|s)$", name):
+        if v == "typecheck" and (re.match(r"name/component-header/(c|s)$", name) or
+                                 re.match(r"name/component-primitive/(q|r|params|ok|zero|query)$", name) or
+                                 re.match(r"name/alias-of-primitive/c$", name)):
+            # D42: a component named like a local variable of the generated code (the cells name the component and the local)
             sig = "header_component_named_like_a_local"
         if sig and any(k["signature"] == sig for k in run.known):
             run.known_hit(sig, name + " [" + f[3] + "]")
